@@ -226,7 +226,7 @@ static float sig(tctx *T,int k,long t,long rate){
   T->lcg=T->lcg*1103515245u+12345u;
   return 0.35f*sinf(6.2831853f*(330.f+90.f*k)*(float)t/(float)rate)+0.2f*(((T->lcg>>8)&0xffff)/32768.f-1.f)+((t%900)==(450+17*k)?0.7f:0.f);
 }
-typedef struct { int ch; long rate; int mode; float q; long mx,nom,mn; int rounds; int chunk; long quiet_after; long resv_bits; } enc_cfg;   /* mode 0: vbr, 1: managed init, 2: 3-step managed setup + ctl, 3: managed with hard minimum and a small reservoir (RATEMANAGE2_SET); input is near silence (1e-5 sine) from sample quiet_after on (0: never) */
+typedef struct { int ch; long rate; int mode; float q; long mx,nom,mn; int rounds; int chunk; long quiet_after; long resv_bits; float qamp; long quiet_before; } enc_cfg;   /* qamp: amplitude of the quiet parts (0: 1e-5); quiet_before: the first quiet_before samples are quiet too */   /* mode 0: vbr, 1: managed init, 2: 3-step managed setup + ctl, 3: managed with hard minimum and a small reservoir (RATEMANAGE2_SET); input is near silence (1e-5 sine) from sample quiet_after on (0: never) */
 
 static void body_enc(tctx *T,const enc_cfg *c){
   vorbis_info vi; vorbis_comment vc; vorbis_dsp_state vd; vorbis_block vb; ogg_packet op,h1,h2,h3; int r=0,round; long done=0;
@@ -266,7 +266,7 @@ static void body_enc(tctx *T,const enc_cfg *c){
     if(!last){
       float **b=0; long j; int k;
       API(b=vorbis_analysis_buffer(&vd,c->chunk));
-      for(j=0;j<c->chunk;j++)for(k=0;k<c->ch;k++){ float v=sig(T,k,done+j,c->rate); b[k][j]=(c->quiet_after&&done+j>=c->quiet_after)?1e-5f*sinf(0.3f*(float)(done+j)+(float)k):v; }   /* near silence, not exact zeros: the analysis still does its full work */
+      for(j=0;j<c->chunk;j++)for(k=0;k<c->ch;k++){ float v=sig(T,k,done+j,c->rate); b[k][j]=((c->quiet_after&&done+j>=c->quiet_after)||done+j<c->quiet_before)?(c->qamp>0.f?c->qamp:1e-5f)*sinf(0.3f*(float)(done+j)+(float)k):v; }   /* near silence, not exact zeros: the analysis still does its full work */
       API(r=vorbis_analysis_wrote(&vd,c->chunk)); OBS_I(r); done+=c->chunk;
     }else{ API(r=vorbis_analysis_wrote(&vd,0)); OBS_I(r); }
     STEP("drain");
@@ -456,14 +456,18 @@ static void body_lap(tctx *T,int st){
   }
 }
 
-enum { B_ENCA=0,B_ENCB,B_ENCC,B_ENCD,B_ENCM,B_ENCT,B_ENCS,B_DECA,B_DECB,B_DECF,B_DECH,B_DECL,B_DECR,B_VFA,B_VFB,B_VFF,B_VFC,B_VFL,B_VFR,B_VLAP,B_VLAQ,NBODY };
-static const char *g_bname[NBODY]={"ENCA","ENCB","ENCC","ENCD","ENCM","ENCT","ENCS","DECA","DECB","DECF","DECH","DECL","DECR","VFA","VFB","VFF","VFC","VFL","VFR","VLAP","VLAQ"};
-static const enc_cfg g_enc[5]={
+enum { B_ENCA=0,B_ENCB,B_ENCC,B_ENCD,B_ENCM,B_ENCH,B_ENCW,B_ENCQ,B_ENCP,B_ENCT,B_ENCS,B_DECA,B_DECB,B_DECF,B_DECH,B_DECL,B_DECR,B_VFA,B_VFB,B_VFF,B_VFC,B_VFL,B_VFR,B_VLAP,B_VLAQ,NBODY };
+static const char *g_bname[NBODY]={"ENCA","ENCB","ENCC","ENCD","ENCM","ENCH","ENCW","ENCQ","ENCP","ENCT","ENCS","DECA","DECB","DECF","DECH","DECL","DECR","VFA","VFB","VFF","VFC","VFL","VFR","VLAP","VLAQ"};
+static const enc_cfg g_enc[9]={
   {2,44100,0,0.4f,0,0,0,3,1024,0,0},            /* ENCA stereo 44.1k VBR */
   {1,8000,2,0,-1,12000,-1,3,1024,0,0},          /* ENCB mono 8k, 3-step managed setup + ctl */
   {6,44100,0,0.3f,0,0,0,2,1024,0,0},            /* ENCC 5.1 VBR */
   {2,22050,1,0,40000,32000,24000,3,1024,0,0},   /* ENCD stereo 22k managed with hard limits */
-  {2,44100,3,0,-1,128000,96000,8,4096,4096,8000}   /* ENCM stereo 44.1k, hard MINIMUM 96 kbit/s, 8000-bit reservoir, tone then near silence: packets are padded up to the floor */
+  {2,44100,3,0,-1,128000,96000,8,4096,4096,8000},  /* ENCM stereo 44.1k, hard MINIMUM 96 kbit/s, 8000-bit reservoir, tone then near silence: packets are padded up to the floor */
+  {2,96000,0,0.5f,0,0,0,7,4096,0,0},               /* ENCH stereo 96k VBR q0.5, 0.3 s (Nyquist beyond the end of the ATH table) */
+  {1,64000,0,0.5f,0,0,0,5,4096,0,0},               /* ENCW mono 64k VBR q0.5, 0.3 s */
+  {1,44100,0,0.4f,0,0,0,5,2048,6144,0,2e-8f,0},    /* ENCQ mono 44.1k: ends in a 2e-8 amplitude tail (end-of-stream LPC sees energy below its epsilon, not exact silence) */
+  {1,44100,0,0.4f,0,0,0,5,2048,0,0,2e-8f,6144}     /* ENCP mono 44.1k: starts with a 2e-8 amplitude lead-in (pre-extrapolation LPC takes the same early exit) */
 };
 static const dec_cfg g_dec[6]={ {ST_S1,5,2,0},{ST_S2,5,-1,0},{ST_F0,5,1,0},{ST_S2,4,-1,1},{ST_PL,5,-1,0},{ST_PR,5,3,0} };
 static const vf_cfg g_vf[6]={ {ST_S1,0,5,0},{ST_S2,1,9,2},{ST_F0,1,7,1},{ST_CH,0,11,0},{ST_PL,1,6,0},{ST_PR,0,10,2} };
@@ -471,7 +475,7 @@ static int body_stream(int b){ if(b>=B_DECA&&b<=B_DECR)return g_dec[b-B_DECA].st
 static int body_id(const char *n){ int i; for(i=0;i<NBODY;i++)if(!strcmp(n,g_bname[i]))return i; return -1; }
 static void run_body(tctx *T){
   int b=T->body;
-  if(b<=B_ENCM)body_enc(T,&g_enc[b]);
+  if(b<=B_ENCP)body_enc(T,&g_enc[b]);
   else if(b==B_ENCT)body_tiny(T,0);
   else if(b==B_ENCS)body_tiny(T,1);
   else if(b<=B_DECR)body_dec(T,&g_dec[b-B_DECA]);
